@@ -107,7 +107,29 @@ def exec_session(R, texts, ops, target, want_fp=False):
             outs.append([name, getattr(E, name)(intr) if intr else getattr(E, name)()])
         return outs
 
+    def do_main(op, intr_k=None):
+        "the same election through the package's own driver, Droop.main, reading the file from the simulated disk"
+        opts = dict(op['options'])
+        opts['path'] = '/simfs/p%d.blt' % op['profile']
+        want = set(op['render']) or {'report'}
+        for name in ('report', 'dump', 'json'):
+            opts[name] = name in want
+        interrupted = False
+        if intr_k is None:
+            txt = R.Droop.main(opts)
+        else:
+            tr = Tracer(R, event='line', k=intr_k, budget=COUNT_BUDGET)
+            try:
+                tr.install()
+                txt = R.Droop.main(opts)
+            finally:
+                tr.remove()
+            interrupted = tr.fired is not None
+        return [['main', txt]], interrupted
+
     def do_count(op, intr_k=None):
+        if op.get('via') == 'main' and R.Droop is not None:
+            return do_main(op, intr_k)
         prof = profile_for(op)
         E = Election(prof, dict(op['options']))
         interrupted = False
@@ -126,7 +148,11 @@ def exec_session(R, texts, ops, target, want_fp=False):
                 tr.remove()
         return render(E, op['render'], interrupted), interrupted
 
-    with sunk_stdout():
+    from . import simfs     # pylint: disable=import-outside-toplevel
+    fs = simfs.SimFS()
+    for i, t in enumerate(texts):
+        fs.put('/simfs/p%d.blt' % i, t.encode('utf-8'))
+    with sunk_stdout(), simfs.mounted(R.droop.profile, fs):
         for op in ops:
             kind = op['op']
             try:
@@ -284,6 +310,9 @@ def gen_session(seed, idx, extended=False):
     topts = gen.gen_options(rnd, rule=trule, n=elections[tprof]['n'], slow_ok=False)
     target = dict(op='count', profile=tprof, share=rnd.random() < 0.5, options=topts,
                   render=list(rnd.choice(RENDER_ORDERS)))
+    if rnd.random() < 0.12:
+        target['via'] = 'main'
+        target['share'] = False
     n = rnd.choice((1, 1, 2, 2, 3, 3, 4, 5, 6))
     ops = []
     tags = set()
@@ -350,6 +379,11 @@ def gen_session(seed, idx, extended=False):
             tags.add('predecessor_interrupted')
         else:
             ops.append(dict(op='count', profile=pidx, share=share, options=o, render=rend))
+        if rnd.random() < 0.15:
+            ops[-1]['via'] = 'main'
+            tags.add('predecessor_via_Droop_main')
+    if target.get('via') == 'main':
+        tags.add('target_via_Droop_main')
     return dict(texts=texts, ops=ops, target=target, tags=sorted(tags))
 
 
@@ -414,7 +448,7 @@ GRID_TEXTS = [
 
 def _target_key(texts, target):
     return hashlib.sha1(repr((texts[target['profile']], sorted(target['options'].items()), target['share'],
-                              target['render'])).encode()).hexdigest()
+                              target['render'], target.get('via'))).encode()).hexdigest()
 
 
 def run_session(R, sess, alone_cache=None, want_fp=True):
